@@ -3,6 +3,7 @@
 d=$1; shift
 s=$(basename $d); p=${s%%-*}
 S=$(mktemp -d /tmp/hvseed.XXXXXX)
+trap 'git -C /repo worktree remove --force "$S/repo" 2>/dev/null; rm -rf "$S"' EXIT INT TERM
 git -C /repo worktree add --detach "$S/repo" HEAD >/dev/null 2>&1
 git -C "$S/repo" apply /verif/seeded/$s/patch.diff || echo "PATCH DOES NOT APPLY"
 cd /verif
